@@ -124,6 +124,29 @@ fn format_decimal(n: f64) -> String {
     }
 }
 
+/// The number written by `digits` in base `radix` (2..=36), for digit strings of any length.
+///
+/// Fixed-width integer parsers overflow on long literals (`0xFFFFFFFFFFFFFFFFFF`, a 64-digit
+/// binary literal, `parseInt` of 20 decimal digits): up to 128 bits the value is converted
+/// exactly and rounded once; beyond that it is accumulated in floating point. Returns `None`
+/// if `digits` is empty or contains a character that is not a digit of that base.
+pub fn radix_digits_to_number(digits: &str, radix: u32) -> Option<f64> {
+    if digits.is_empty() || !digits.chars().all(|c| c.is_digit(radix)) {
+        return None;
+    }
+    if radix == 10 {
+        // correctly rounded for any length
+        return digits.parse::<f64>().ok();
+    }
+    Some(match u128::from_str_radix(digits, radix) {
+        Ok(v) => v as f64,
+        Err(_) => digits
+            .chars()
+            .filter_map(|c| c.to_digit(radix))
+            .fold(0.0, |acc, d| acc * f64::from(radix) + f64::from(d)),
+    })
+}
+
 /// ECMAScript ToUint32 (ECMA-262 7.1.7): truncate toward zero, then reduce modulo 2^32.
 ///
 /// A plain `as u32` / `as i32` cast saturates instead of wrapping, so `2**32 | 0`
@@ -184,10 +207,7 @@ pub fn string_to_number(s: &str) -> f64 {
                     if hex_part.is_empty() {
                         return f64::NAN;
                     }
-                    return match u64::from_str_radix(hex_part, 16) {
-                        Ok(n) => n as f64,
-                        Err(_) => f64::NAN,
-                    };
+                    return radix_digits_to_number(hex_part, 16).unwrap_or(f64::NAN);
                 }
                 Some(b'o' | b'O') => {
                     // Octal: 0o...
@@ -195,10 +215,7 @@ pub fn string_to_number(s: &str) -> f64 {
                     if oct_part.is_empty() {
                         return f64::NAN;
                     }
-                    return match u64::from_str_radix(oct_part, 8) {
-                        Ok(n) => n as f64,
-                        Err(_) => f64::NAN,
-                    };
+                    return radix_digits_to_number(oct_part, 8).unwrap_or(f64::NAN);
                 }
                 Some(b'b' | b'B') => {
                     // Binary: 0b...
@@ -206,10 +223,7 @@ pub fn string_to_number(s: &str) -> f64 {
                     if bin_part.is_empty() {
                         return f64::NAN;
                     }
-                    return match u64::from_str_radix(bin_part, 2) {
-                        Ok(n) => n as f64,
-                        Err(_) => f64::NAN,
-                    };
+                    return radix_digits_to_number(bin_part, 2).unwrap_or(f64::NAN);
                 }
                 _ => {}
             }
